@@ -112,7 +112,7 @@ func renderTuple(ts []J) string {
 func builtinsHandle(c map[string]J) map[string]J {
 	pred := c["pred"].(string)
 	pat := c["pat"].([]J)
-	var args, iargs, earlier []string
+	var args, iargs, earlier, spineArgs, spineEarlier []string
 	var unboundPos []int
 	n := 0
 	vname := map[int]string{}
@@ -127,9 +127,26 @@ func builtinsHandle(c map[string]J) map[string]J {
 			vname[i] = fmt.Sprintf("V%d", jt.Int(a.([]J)[1]))
 			args = append(args, vname[i])
 			iargs = append(iargs, vname[i])
+			spineArgs = append(spineArgs, vname[i])
 		} else {
-			t := jt.Render(specValue(a, &n))
+			sv := specValue(a, &n)
+			t := jt.Render(sv)
 			args = append(args, t)
+			// option spine: a list argument whose spine runs through a variable bound by an earlier goal: [e1|S] or [e1,e2|S], S = [rest]
+			sa := t
+			if es, ok := listElems(sv); ok && len(es) >= 1 {
+				k := 1 + i%2
+				if k > len(es) {
+					k = len(es)
+				}
+				var pre []string
+				for _, e := range es[:k] {
+					pre = append(pre, jt.Render(e))
+				}
+				spineEarlier = append(spineEarlier, fmt.Sprintf("S%d = %s", i+1, jt.Render(jt.List(es[k:], jt.A("[]")))))
+				sa = fmt.Sprintf("[%s|S%d]", strings.Join(pre, ","), i+1)
+			}
+			spineArgs = append(spineArgs, sa)
 			// the same value reached through a variable that an earlier goal of the query binds
 			earlier = append(earlier, fmt.Sprintf("B%d = %s", i+1, t))
 			iargs = append(iargs, fmt.Sprintf("B%d", i+1))
@@ -144,6 +161,9 @@ func builtinsHandle(c map[string]J) map[string]J {
 	q := goalOf(args) + "."
 	if opt("indirect") == "1" && len(earlier) > 0 {
 		q = strings.Join(earlier, ", ") + ", " + goalOf(iargs) + "."
+	}
+	if opt("spine") == "1" && len(spineEarlier) > 0 {
+		q = strings.Join(spineEarlier, ", ") + ", " + goalOf(spineArgs) + "."
 	}
 	infinite, _ := c["infinite"].(bool)
 	var want []string
@@ -209,4 +229,27 @@ func builtinsHandle(c map[string]J) map[string]J {
 		return map[string]J{"status": "mismatch", "input": "?- " + q, "what": what, "expected": want, "observed": got}
 	}
 	return map[string]J{"status": "ok", "input": "?- " + q, "answers": len(got)}
+}
+
+// listElems returns the elements of a proper list term.
+func listElems(t J) ([]J, bool) {
+	var es []J
+	for {
+		a, ok := t.([]J)
+		if !ok {
+			return nil, false
+		}
+		if a[0] == "a" && a[1] == "[]" {
+			return es, true
+		}
+		if a[0] != "c" || a[1] != "." {
+			return nil, false
+		}
+		args := a[2].([]J)
+		if len(args) != 2 {
+			return nil, false
+		}
+		es = append(es, args[0])
+		t = args[1]
+	}
 }
